@@ -221,7 +221,7 @@ func init() {
 			return obs
 		}})
 
-	register(&Rule{ID: "TRACE.push-site", Floor: 3,
+	register(&Rule{ID: "TRACE.push-site", Floor: 1,
 		Doc: "every frame push passes the evaluator's current location (env.loc) as the frame's call site",
 		Run: func(c *Ctx) []Obligation {
 			push := c.LookupMethod("lisp.CallStack.PushFID")
